@@ -137,7 +137,8 @@ MaxCliques(V, E) == BK(E, {}, V, {})
 IsMaxClique(V, E, S) == S # {} /\ S \subseteq V /\ IsClique(E, S) /\ \A v \in V \ S : ~(S \subseteq Succ(E, v))
 
 \* clique graph: nodes = maximal cliques, edge iff they share a node, labelled by the shared nodes
-CliqueGraphEdges(V, E) == LET M == MaxCliques(V, E) IN {<<A, B>> \in M \X M : A # B /\ A \cap B # {}}
+CliqueGraphEdgesOf(M) == {<<A, B>> \in M \X M : A # B /\ A \cap B # {}}
+CliqueGraphEdges(V, E) == CliqueGraphEdgesOf(MaxCliques(V, E))
 
 \* k-clique communities (Palla et al.): unions of k-cliques chained by sharing k-1 nodes;
 \* gonum additionally reports every node in no community as a singleton (as for k = 2)
